@@ -34,6 +34,7 @@ import (
 //   C19:metadata-ok-on-unfit-channel  update-metadata Ok although a listed channel was neither ours nor fresh+untaken
 //   C19:grant-missing                 create / update-metadata Ok but a listed channel is not administered by the challenger
 //   C19:handover-missing              update-challenger Ok but a listed channel is not administered by the new challenger
+//   C19:handover-refused              update-challenger by governance / the challenger refused (the hand-over has no channel precondition)
 //   C19:grant-refused                 a well-formed create / update-metadata with only fit channels was refused
 //   C19:err-changed-state             a refused message changed the admin table or a config
 
@@ -414,6 +415,22 @@ func (g *c19Gen) do(o L1Op, metaClass string) ExecResult {
 			viol("C19:grant-refused", fmt.Sprintf("well-formed %s whose listed channels are all fit was refused: %s", o.Kind, res.Err))
 		}
 	}
+	// 3b. the hand-over has no precondition on the channels: an update-challenger by governance
+	// or the current challenger of an existing bridge to a valid address must succeed whatever
+	// the listed channels' state is (in use, removed from the channel keeper, foreign admin)
+	if !res.OK && o.Kind == "uchallenger" && challenger != "" {
+		if cf, ok := pre.cfg[o.Bridge]; ok && (o.Sender == g.sc.Env.K.GetAuthority() || o.Sender == cf[1]) {
+			states := []string{}
+			for _, pc := range listed {
+				st := "missing"
+				if sq, ok := pre.seq[pc]; ok {
+					st = fmt.Sprintf("seq=%d", sq)
+				}
+				states = append(states, fmt.Sprintf("%s/%s:%s", pc[0], pc[1], st))
+			}
+			viol("C19:handover-refused", fmt.Sprintf("update-challenger of bridge %d by an authorised signer was refused (%s); listed channels: %v", o.Bridge, res.Err, states))
+		}
+	}
 	// 4. a refused message changes nothing
 	if !res.OK {
 		for b, cf := range pre.cfg {
@@ -446,7 +463,7 @@ func (g *c19Gen) step() {
 		}
 		return ex[r.Intn(len(ex))]
 	}
-	ws := []int{16, 8, 14, 30, 24, 8, 10}
+	ws := []int{16, 8, 14, 30, 24, 8, 10, 7}
 	if len(ex) >= 4 {
 		ws[2] = 0
 	}
@@ -509,6 +526,29 @@ func (g *c19Gen) step() {
 		}
 		sc.reg(signer, na)
 		g.do(sc.op(L1Op{Kind: "uchallenger", Sender: signer, Bridge: b, NewAddr: na}), "")
+	case 7: // hand-over in every channel state: disturb a channel the bridge lists, then update the challenger
+		b := pickBridge()
+		cfg, err := e.K.GetBridgeConfig(e.Ctx, b)
+		if err != nil {
+			return
+		}
+		if l, ok := c19Parse(cfg.Metadata); ok && len(l) > 0 {
+			pc := l[r.Intn(len(l))]
+			switch r.Intn(4) {
+			case 0:
+				g.do(sc.op(L1Op{Kind: "chanset", Port: pc[0], Chan: pc[1], Has: true, Val: uint64(2 + r.Intn(9))}), "")
+			case 1:
+				g.do(sc.op(L1Op{Kind: "chanset", Port: pc[0], Chan: pc[1], Has: false}), "")
+			case 2:
+				g.do(sc.op(L1Op{Kind: "adminset", Port: pc[0], Chan: pc[1], Has: true, Val: uint64(5 + r.Intn(3))}), "")
+			}
+		}
+		old := cfg.Challenger
+		n1, n2 := e.User(uint64(1+r.Intn(4))).Str, e.User(uint64(1+r.Intn(4))).Str
+		sc.reg(old, n1, n2)
+		g.do(sc.op(L1Op{Kind: "uchallenger", Sender: old, Bridge: b, NewAddr: n1}), "")
+		g.do(sc.op(L1Op{Kind: "uchallenger", Sender: e.Auth, Bridge: b, NewAddr: n2}), "")
+		g.do(sc.op(L1Op{Kind: "uchallenger", Sender: n2, Bridge: b, NewAddr: old}), "")
 	case 6: // re-submit the metadata bytes the bridge already stores: the hook must run again
 		b := pickBridge()
 		cfg, err := e.K.GetBridgeConfig(e.Ctx, b)
@@ -638,6 +678,39 @@ func c19Resend(seed uint64, id int, foreign bool, rep *Report) *L1Case {
 	return g.c
 }
 
+// hand-over in every channel state: a bridge lists three fresh channels; then one goes into
+// use, one disappears from the channel keeper, one gets a foreign admin (variant selects which
+// of these happen); the challenger is updated, updated again, and set back
+func c19HandoverStates(seed uint64, id int, variant int, rep *Report) *L1Case {
+	g := newC19Scenario(seed, id)
+	g.rep = rep
+	sc, e := g.sc, g.sc.Env
+	chs := [][2]string{c19Universe[0], c19Universe[1], c19Universe[2]}
+	var it []string
+	for _, pc := range chs {
+		it = append(it, c19Entry(pc))
+		g.do(sc.op(L1Op{Kind: "chanset", Port: pc[0], Chan: pc[1], Has: true, Val: 1}), "")
+	}
+	c1 := sc.NewConfig(4, 1, 100*sec)
+	c1.Meta = []byte(`{"perm_channels":[` + strings.Join(it, ",") + `]}`)
+	g.do(sc.Create(e.User(5).Str, c1), "valid")
+	if variant&1 != 0 {
+		g.do(sc.op(L1Op{Kind: "chanset", Port: chs[0][0], Chan: chs[0][1], Has: true, Val: 2}), "")
+	}
+	if variant&2 != 0 {
+		g.do(sc.op(L1Op{Kind: "chanset", Port: chs[1][0], Chan: chs[1][1], Has: false}), "")
+	}
+	if variant&4 != 0 {
+		g.do(sc.op(L1Op{Kind: "adminset", Port: chs[2][0], Chan: chs[2][1], Has: true, Val: e.User(6).ID}), "")
+	}
+	X, Y, Z := e.User(1).Str, e.User(2).Str, e.User(3).Str
+	sc.reg(X, Y, Z)
+	g.do(sc.op(L1Op{Kind: "uchallenger", Sender: X, Bridge: 1, NewAddr: Y}), "")
+	g.do(sc.op(L1Op{Kind: "uchallenger", Sender: e.Auth, Bridge: 1, NewAddr: Z}), "")
+	g.do(sc.op(L1Op{Kind: "uchallenger", Sender: Z, Bridge: 1, NewAddr: X}), "")
+	return g.c
+}
+
 func genC19(seed uint64, tier string, outdir string) *Report {
 	rep := NewReport("C19", seed, tier)
 	rep.Rule = "a case is one history of environment ops and create / update-metadata / update-challenger over up to four bridges on a fresh instance with the real hook; distinct by hash of the op list; non-trivial = at least one grant or handover succeeded and at least one hook-guarded message was refused"
@@ -660,8 +733,14 @@ func genC19(seed uint64, tier string, outdir string) *Report {
 		rep.CountCase(strings.Join(l1OpsHuman(c.Ops), "\n"), true)
 		texts = append(texts, c.Coq())
 	}
+	for k := 0; k < 4; k++ {
+		c := c19HandoverStates(seed+20+uint64(k), 8+k, []int{1, 2, 4, 7}[k], rep)
+		rep.Ops += len(c.Ops)
+		rep.CountCase(strings.Join(l1OpsHuman(c.Ops), "\n"), false)
+		texts = append(texts, c.Coq())
+	}
 	for k := 0; k < nCases; k++ {
-		g := newC19Scenario(seed*6151+uint64(k), k+8)
+		g := newC19Scenario(seed*6151+uint64(k), k+12)
 		g.rep = rep
 		for n := 0; n < nOps; n++ {
 			g.step()
